@@ -900,12 +900,26 @@ func (v *FnV) elt(st *State, e ast.Expr, t types.Type) Value {
 
 // ---------- maps ----------
 
+// mapKey: the SMT index used for a key. Strings are identified by CONTENT: skey is injective
+// on contents (two Go strings are the same key exactly when they are equal as strings).
+func (v *FnV) mapKey(mt *types.Map, k Value) Value {
+	if !isString(v.substT(mt.Key())) {
+		return k
+	}
+	v.c.glob("skey", "(declare-fun skey (Str) Int)",
+		"(assert (forall ((a!k Str) (b!k Str)) (! (= (str_eq a!k b!k) (= (skey a!k) (skey b!k))) :pattern ((skey a!k) (skey b!k)))))")
+	return Value{T: k.T, S: sx("skey", k.S)}
+}
+
 func (v *FnV) mapHeaps(st *State, mt *types.Map) (pn, ph, vn, vh string, ok bool) {
 	kt := v.substT(mt.Key())
-	if !(isIntType(kt) || isBoolType(kt)) {
+	if !(isIntType(kt) || isBoolType(kt) || isString(kt)) {
 		return "", "", "", "", false
 	}
 	ks := v.c.sortOf(kt)
+	if isString(kt) {
+		ks = "Int" // string keys are mapped to content identifiers (skey)
+	}
 	key := mangle(typeKey(mt))
 	pn, vn = "MP_"+key, "MV_"+key
 	ph = st.heap(pn, fmt.Sprintf("(Array Int (Array %s Bool))", ks))
@@ -919,6 +933,9 @@ func (v *FnV) mapInit(st *State, mt *types.Map, m Value) {
 		return
 	}
 	ks := v.c.sortOf(v.substT(mt.Key()))
+	if isString(v.substT(mt.Key())) {
+		ks = "Int"
+	}
 	st.setHeap(pn, sStore(ph, m.S, fmt.Sprintf("((as const (Array %s Bool)) false)", ks)))
 }
 
@@ -931,6 +948,7 @@ func (v *FnV) mapLookup(st *State, mt *types.Map, m Value, k Value) (Value, stri
 		p := st.freshVal("present", tBool)
 		return Value{T: et, S: sIte(p.S, val.S, v.c.zeroOf(et))}, p.S
 	}
+	k = v.mapKey(mt, k)
 	present := sAnd(sNot(sEq(m.S, "0")), sSelect(sSelect(ph, m.S), k.S))
 	pn := st.define("present", "Bool", present)
 	raw := sSelect(sSelect(vh, m.S), k.S)
@@ -943,6 +961,7 @@ func (v *FnV) mapStore(st *State, mt *types.Map, m Value, k Value, val Value) {
 	if !ok {
 		return
 	}
+	k = v.mapKey(mt, k)
 	v.writeCheck(st, m.S, "map store")
 	st.setHeap(pn, sStore(ph, m.S, sStore(sSelect(ph, m.S), k.S, "true")))
 	st.setHeap(vn, sStore(vh, m.S, sStore(sSelect(vh, m.S), k.S, val.S)))
@@ -953,6 +972,7 @@ func (v *FnV) mapDelete(st *State, mt *types.Map, m Value, k Value) {
 	if !ok {
 		return
 	}
+	k = v.mapKey(mt, k)
 	v.writeCheck(st, m.S, "map delete")
 	st.setHeap(pn, sStore(ph, m.S, sStore(sSelect(ph, m.S), k.S, "false")))
 }
